@@ -252,6 +252,14 @@ def check(F, run, path, jac_provider):
     J = sp.Matrix(M_, V_, [sp.Symbol("J%d%d" % (i, j), real=True) for i in range(M_) for j in range(V_)])
     lam, mu, tol = sp.Symbol("damping", positive=True), sp.Symbol("damping_mult", positive=True), sp.Symbol("tol", positive=True)
     xs = [sp.Symbol("x%d" % i, real=True) for i in range(M_)]
+    # R17.4 names roles by the instance table of the pinned tree (renamed locals get these names back through refs/locals.json); when they are not
+    # all there the driver has been restructured beyond the table: one fail-closed finding instead of judging another program by old roles
+    have_ = set(c07.all_binds(b))
+    need_ = {"params", "evaluation", "damping", "sum_sq", "last_sum_sq", "jac", "jac_transpose"}
+    if not need_ <= have_:
+        run.broken("R17.4", path, "roles", F.loc(b), "the locals %s of the instance table are not present: the Levenberg–Marquardt iteration rule cannot be applied to this shape of the driver "
+                   "and the instance table needs re-confirming" % sorted(need_ - have_))
+        return
     S0, L0 = sp.Symbol("sum_sq", real=True), sp.Symbol("last_sum_sq", real=True)
     vals = dict(c07.constant_locals(F, b))
     vals.update({"params": lambda it: sp.Matrix(p), "ys": lambda it: sp.Matrix(ys), "evaluation": lambda it: sp.Matrix(E), "jac": lambda it: sp.Matrix(J),
@@ -262,6 +270,12 @@ def check(F, run, path, jac_provider):
         cond = pre[0].result if len(pre) == 1 else None
     except sym.Unsupported as u:
         cond = None
+    if cond is not None and hasattr(cond, "free_symbols"):
+        odd = sorted(str(x) for x in cond.free_symbols if str(x) not in ("sum_sq", "last_sum_sq", "tol"))
+        if odd:
+            run.broken("R17.4", path, "roles", where, "the loop condition is over %s, not over the locals `sum_sq` / `last_sum_sq` of the instance table: the Levenberg–Marquardt iteration "
+                       "rule cannot be applied to this shape of the driver and the instance table needs re-confirming" % odd)
+            return
     want = sp.Abs(L0 - S0) > tol
     run.check(cond is not None and (cond == want or sp.simplify(sp.Abs(L0 - S0) - (cond.lhs - cond.rhs + tol)) == 0 and isinstance(cond, sp.StrictGreaterThan)),
               "R17.4", path, "continue-while-change>tol", where, "the loop continues while %s; expected |last_sum_sq − sum_sq| > tol" % (cond,), sample="while |Δ sum_sq| > tol")
